@@ -361,6 +361,10 @@ impl Model {
 
     // ------------------------------------------------------------------ helpers
 
+    fn clause(out: &mut StepOut, name: &str) {
+        out.notes.push(format!("clause:{}", name));
+    }
+
     fn in_books(&self, c: usize) -> bool {
         self.conns[c].state != ConnState::Gone
     }
@@ -628,8 +632,10 @@ impl Model {
 
     fn create_object(&mut self, c: usize, m: CreateObject, out: &mut StepOut) {
         if self.objs.contains_key(&m.uuid.0) {
+            Self::clause(out, "create object: duplicate");
             return self.send(out, c, CreateObjectReply { serial: m.serial, result: CreateObjectResult::DuplicateObject });
         }
+        Self::clause(out, "create object: ok with a fresh cookie");
         let k = ObjectCookie(self.fresh_cookie(out, CookieKind::Object));
         self.objs.insert(m.uuid.0, MObj { uuid: m.uuid, cookie: k, owner: c, services: BTreeSet::new() });
         self.send(out, c, CreateObjectReply { serial: m.serial, result: CreateObjectResult::Ok(k) });
@@ -720,6 +726,7 @@ impl Model {
             let call = self.calls.remove(&id).unwrap();
             out.released_serials.push((call.callee, call.callee_serial));
             if !call.aborted {
+                Self::clause(out, "pending call ended by destruction of the service or its owner: invalid-service synthesized");
                 self.conns[call.caller].calls.remove(&call.caller_serial);
                 self.send(out, call.caller, CallFunctionReply { serial: call.caller_serial, result: CallFunctionResult::InvalidService });
             }
@@ -732,6 +739,7 @@ impl Model {
         told.extend(s.svc_subs.iter().copied());
         for &sub in &told {
             if self.in_books(sub) {
+                Self::clause(out, "subscriber notified of the destroyed service");
                 self.send(out, sub, ServiceDestroyed { service_cookie: s.cookie });
             }
         }
@@ -750,11 +758,14 @@ impl Model {
     #[allow(clippy::too_many_arguments)]
     fn call(&mut self, c: usize, serial: u32, sc: ServiceCookie, function: u32, version: Option<u32>, value: SerializedValue, out: &mut StepOut) {
         let Some(s) = self.svc_by_cookie(sc).cloned() else {
+            Self::clause(out, "call to a service that is not live: invalid-service reply");
             return self.send(out, c, CallFunctionReply { serial, result: CallFunctionResult::InvalidService });
         };
         if self.conns[c].calls.contains_key(&serial) {
+            Self::clause(out, "call with a serial still pending: caller closed");
             return self.close_conn(out, c, "call serial already in use");
         }
+        Self::clause(out, "call accepted and forwarded to the owner");
         let id = self.next_call;
         self.next_call += 1;
         let callee = s.owner;
@@ -770,16 +781,20 @@ impl Model {
 
     fn call_reply(&mut self, c: usize, m: CallFunctionReply, out: &mut StepOut) {
         let Some(call) = self.calls.values().find(|k| k.callee_serial == m.serial).cloned() else {
+            Self::clause(out, "reply for no pending call (unknown, duplicate or stale): not delivered");
             return;
         };
         if call.callee != c {
+            Self::clause(out, "reply by a connection that does not own the service: not delivered");
             return;
         }
         self.calls.remove(&call.id);
         out.released_serials.push((call.callee, call.callee_serial));
         if call.aborted {
+            Self::clause(out, "reply after an abort: not delivered");
             return;
         }
+        Self::clause(out, "owner's reply forwarded to the caller");
         self.conns[call.caller].calls.remove(&call.caller_serial);
         self.send(out, call.caller, CallFunctionReply { serial: call.caller_serial, result: m.result });
     }
@@ -791,6 +806,7 @@ impl Model {
         }
         call.aborted = true;
         let call = call.clone();
+        Self::clause(out, if tell_caller { "call aborted by the caller: aborted reply synthesized" } else { "caller disconnected: call aborted towards the owner" });
         if self.in_books(call.callee) && self.conns[call.callee].version >= 16 {
             self.send(out, call.callee, AbortFunctionCall { serial: call.callee_serial });
         }
@@ -815,6 +831,7 @@ impl Model {
         let owner = s.owner;
         self.send(out, c, SubscribeEventReply { serial, result: SubscribeEventResult::Ok });
         if first {
+            Self::clause(out, "event subscribers 0 -> 1: owner told to start");
             self.send(out, owner, SubscribeEvent { serial: None, service_cookie: m.service_cookie, event: m.event });
         }
     }
@@ -828,6 +845,7 @@ impl Model {
         if set.is_empty() {
             s.ev_subs.remove(&event);
             let owner = s.owner;
+            Self::clause(out, "event subscribers 1 -> 0: owner told to stop");
             self.send(out, owner, UnsubscribeEvent { service_cookie: sc, event });
         }
     }
@@ -878,13 +896,16 @@ impl Model {
     fn emit_event(&mut self, c: usize, m: EmitEvent, out: &mut StepOut) {
         let Some(s) = self.svcs.get(&m.service_cookie.0) else { return };
         if s.owner != c {
+            Self::clause(out, "event emitted by a non-owner: dropped");
             return;
         }
+        Self::clause(out, "event emitted by the owner");
         let mut to: BTreeSet<usize> = s.all_subs.clone();
         if let Some(set) = s.ev_subs.get(&m.event) {
             to.extend(set.iter().copied());
         }
         for t in to {
+            Self::clause(out, "event delivered to a subscribed connection");
             self.send(out, t, m.clone());
         }
     }
@@ -927,7 +948,8 @@ impl Model {
         };
         match end {
             EndSt::Claimed { .. } => {
-                return self.send(out, c, ClaimChannelEndReply { serial: m.serial, result: ClaimChannelEndResult::AlreadyClaimed })
+                Self::clause(out, "claim of an already claimed end refused");
+                return self.send(out, c, ClaimChannelEndReply { serial: m.serial, result: ClaimChannelEndResult::AlreadyClaimed });
             }
             EndSt::Closed => {
                 return self.send(out, c, ClaimChannelEndReply { serial: m.serial, result: ClaimChannelEndResult::InvalidChannel })
@@ -994,6 +1016,7 @@ impl Model {
         let ck = ch.cookie;
         match other.clone() {
             EndSt::Claimed { owner, .. } if self.in_books(owner) => {
+                Self::clause(out, "peer told once that the other end is closed");
                 self.send(out, owner, ChannelEndClosed { cookie: ck, end });
             }
             _ => {
@@ -1018,12 +1041,14 @@ impl Model {
             }
             EndSt::Claimed { owner: r, credit: rcap } => {
                 if credit == 0 {
+                    Self::clause(out, "sender exceeded its announced credit: only its own end closed");
                     out.notes.push("sender exceeded the capacity announced to it".into());
                     self.close_end(m.cookie.0, ChannelEnd::Sender, out);
                 } else {
                     ch.sender = EndSt::Claimed { owner, credit: credit - 1 };
                     ch.receiver = EndSt::Claimed { owner: r, credit: rcap - 1 };
                     ch.forwarded += 1;
+                    Self::clause(out, "item forwarded within the granted capacity");
                     self.send(out, r, ItemReceived { cookie: m.cookie, value: m.value });
                     if self.conns[owner].state == ConnState::Zombie {
                         // a credit announcement to the sender may follow
@@ -1046,6 +1071,7 @@ impl Model {
         }
         let new = credit + m.capacity as u64;
         if new > u32::MAX as u64 {
+            Self::clause(out, "capacity grant overflows: only the receiver closed");
             out.notes.push("capacity grant overflows: receiver closed".into());
             return self.close_end(m.cookie.0, ChannelEnd::Receiver, out);
         }
@@ -1139,6 +1165,7 @@ impl Model {
                 self.send(out, c, EmitBusEvent { cookie: Some(m.cookie), event: BusEvent::ServiceCreated(s) });
             }
         }
+        Self::clause(out, "listener started with current scope: tagged events then end marker");
         self.send(out, c, BusListenerCurrentFinished { cookie: m.cookie });
     }
 
@@ -1150,6 +1177,7 @@ impl Model {
             }
         }
         for c in conns {
+            Self::clause(out, "new bus event reported once to a connection with a matching started listener");
             self.send(out, c, EmitBusEvent { cookie: None, event: ev });
         }
     }
@@ -1234,6 +1262,7 @@ impl Model {
         }
         self.conns[d].state = ConnState::Gone;
         out.closed.push(d);
+        Self::clause(out, "connection ended: everything it owned or subscribed to released");
         // listeners
         let ls: Vec<Uuid> = self.listeners.values().filter(|l| l.owner == d).map(|l| l.cookie.0).collect();
         for l in ls {
@@ -1262,6 +1291,7 @@ impl Model {
             let all_emptied = s.all_subs.remove(&d) && s.all_subs.is_empty();
             s.svc_subs.remove(&d);
             for ev in emptied {
+                Self::clause(out, "subscriber disconnected, event subscribers 1 -> 0: owner told to stop");
                 self.send(out, owner, UnsubscribeEvent { service_cookie: sc, event: ev });
             }
             if all_emptied {
